@@ -111,7 +111,7 @@ func edTorsion(rng *rand.Rand) [][2]*big.Int {
 }
 
 func runC17(r *Run, rng *rand.Rand, thorough bool) {
-	r.Rule = "exact ops: crypto.ECPoint constructor/Add/ScalarMult/ScalarBaseMult/EightInvEight on btcec secp256k1 and dcrd edwards25519 vs the Lean model's own affine arithmetic; non-trivial = distinct op line on a non-identity input; direct assertions: every door (constructor, unflatten, JSON, Gob) accepts only canonical on-curve coordinates (also for the small-order points and their aliases with a coordinate written as P or P+1) and round-trips, group laws on sampled triples, cofactor clearing on all 8 torsion points, scalar multiplication of torsion and mixed-order edwards points by scalars around and beyond the subgroup order"
+	r.Rule = "exact ops: crypto.ECPoint constructor/Add/ScalarMult/ScalarBaseMult/EightInvEight on btcec secp256k1 and dcrd edwards25519 vs the Lean model's own affine arithmetic; non-trivial = distinct op line on a non-identity input; direct assertions: every door (constructor, unflatten, JSON with and without a curve name, Gob, and the points inside every commitment opening of all six protocols: one party commits to its values with one pair moved off the curve and opens correctly, every honest recipient must refuse and name the sender) accepts only canonical on-curve coordinates (also for the small-order points and their aliases with a coordinate written as P or P+1) and round-trips, group laws on sampled triples, cofactor clearing on all 8 torsion points, scalar multiplication of torsion and mixed-order edwards points by scalars around and beyond the subgroup order"
 	pointsInMessageFields(r, rng, thorough)
 	reps := 4
 	if thorough {
